@@ -255,6 +255,26 @@ def h_sctp_two_data(ctx, role):
         ctx.observe("cum", t._last_received_tsn)
 
 
+def h_remb_route(ctx, extra):
+    """A REMB whose FCI is symbolic behind the 'REMB' tag (SSRC count, exponent/mantissa, 0..2
+    SSRC entries - the count may claim more entries than are present) is routed: nothing but the
+    router's own ValueError handling may be involved, nothing escapes."""
+    from aiortc.rtcdtlstransport import RtpRouter
+    from aiortc.rtp import RtcpPsfbPacket
+
+    class S:
+        pass
+
+    router = RtpRouter()
+    s = S()
+    s._ssrc = 0x01020304
+    router.register_sender(s, s._ssrc)
+    p = RtcpPsfbPacket(fmt=15, ssrc=1, media_ssrc=0, fci=b"REMB" + ctx.bytes("remb", 4 + extra))
+    got = router.route_rtcp(p)
+    ctx.reach("remb-routed")
+    ctx.observe("n", len(got))
+
+
 def h_sctp_many_gaps(ctx, n):
     """Targeted, concrete count: a peer that has sent every second TSN (n separate holes, never
     filled) sends one more DATA chunk: building the SACK with n+1 gap blocks must not raise."""
@@ -745,6 +765,7 @@ HARNESSES = {
         opts=NC_OPTS,
         twin="data-handled",
     ),
+    "remb-route": Harness("remb-route", h_remb_route, lambda tier: [{"extra": e} for e in (0, 1, 4, 5, 8)], style="NC (structure-aware)", bounds="PSFB/AFB packet whose FCI is 'REMB' + 4..12 symbolic bytes (SSRC count, bitrate, 0..2 SSRC entries, also counts that over-claim), routed by RtpRouter.route_rtcp", encoded=["aiortc.rtcdtlstransport:RtpRouter.route_rtcp", "aiortc.rtp:unpack_remb_fci"], opts=NC_OPTS, twin="remb-routed"),
     "sctp-many-gaps": Harness("sctp-many-gaps", h_sctp_many_gaps, lambda tier: [{"n": n} for n in ((300, 16380) if tier == "quick" else (300, 16379, 16380, 20000))], style="NC (targeted, concrete count)", bounds="300 and 16380 (quick) / 300, 16379, 16380 and 20000 unfilled single-TSN holes in the receive window (every second TSN received), then one more DATA chunk 0 or 3 holes further ahead: the SACK it triggers must not raise (the chunk length field is 16 bit)", encoded=ENC_SCTP, stubs=STUBS, opts={"samples": 1, "path_timeout_s": 600, "max_decisions": 100000}, twin="many-gaps-handled"),
     "sctp-two-data": Harness("sctp-two-data", h_sctp_two_data, lambda tier: [{"role": r} for r in ("client", "server")], style="NC (structure-aware)", bounds="two DATA chunks with independent symbolic 32-bit TSNs, flags 0..7, stream sequence 0..1", encoded=ENC_SCTP, stubs=STUBS, opts=NC_OPTS, twin="two-data-handled"),
     "sctp-then-valid": Harness("sctp-then-valid", h_sctp_then_valid, lambda tier: [{"role": r, "unordered": u} for r in ("client", "server") for u in (False, True)] + [{"role": "client", "unordered": u, "frag": f} for u in (False, True) for f in ("middle", "last")], style="NC + delivery (structure-aware)", bounds="one DATA chunk - a complete message, or a middle / last fragment whose first fragment never comes - with symbolic 32-bit TSN and stream sequence number 2..65535 (ordered or unordered), then two genuine ordered messages", encoded=ENC_SCTP, stubs=STUBS, opts=NC_OPTS, twin="valid-after-bogus-handled"),
